@@ -264,6 +264,32 @@ def m_minmax(cls, fname):
     return model
 
 
+def m_inner(a, b):
+    a, b = as_T(a), as_T(b)
+    if a.shape != b.shape:
+        raise LiftRaise("ValueError: Shapes do not match in inner")
+    ii = tuple(new_index() for _ in a.shape)
+    r = uflsem.t_index(a, ii) * uflsem.conj(uflsem.t_index(b, ii)) if ii else a * uflsem.conj(b)
+    return node(r, "Inner", (a, b))
+
+
+def m_dot(a, b):
+    a, b = as_T(a), as_T(b)
+    ai = tuple(new_index() for _ in a.shape[:-1])
+    bi = tuple(new_index() for _ in b.shape[1:])
+    k = new_index()
+    r = uflsem.as_tensor(uflsem.t_index(a, ai + (k,)) * uflsem.t_index(b, (k,) + bi), ai + bi)
+    return node(r, "Dot", (a, b))
+
+
+def m_outer(a, b):
+    a, b = as_T(a), as_T(b)
+    ii = tuple(new_index() for _ in a.shape)
+    jj = tuple(new_index() for _ in b.shape)
+    r = uflsem.as_tensor(uflsem.conj(uflsem.t_index(a, ii)) * uflsem.t_index(b, jj), ii + jj)
+    return node(r, "Outer", (a, b))
+
+
 def restrict(t: T, side: str) -> T:
     memo = {}
 
@@ -372,6 +398,9 @@ def base_models(gdim=None, tdim=None):
         "NotCondition": m_not,
         "MinValue": m_minmax("MinValue", "min"),
         "MaxValue": m_minmax("MaxValue", "max"),
+        "Inner": m_inner,
+        "Dot": m_dot,
+        "Outer": m_outer,
         "Variable": lambda e, label=None: node(as_T(e), "Variable", (as_T(e), label), label=lambda: label),
         "PositiveRestricted": m_restricted("+"),
         "NegativeRestricted": m_restricted("-"),
